@@ -286,7 +286,20 @@ pub fn worker_main(check: &dyn TCheck, args: &Args, w: usize, n: usize) -> ! {
                         let r = run_once(check, &hooks, &prep, Plan::Replay { trace: t });
                         (r.class().unwrap_or_default(), r.trace)
                     };
-                    let min = exec::minimise_trace(&run.trace, class, &runner);
+                    // first look for a simpler schedule of the same work that fails the same way:
+                    // few priority changes (PCT depth 1, 2) or long uninterrupted runs, other seeds;
+                    // the one with the fewest context switches is the starting point
+                    let mut start_trace = run.trace.clone();
+                    let mut fewest = run.switches;
+                    for k in 0..150u64 {
+                        let strat = [Strategy::Pct(1), Strategy::Sticky, Strategy::Pct(2)][(k % 3) as usize];
+                        let r = run_once(check, &hooks, &prep, Plan::Explore { seed: simcore::prng::hash_label(sched_seed, "simpler", k), strategy: strat });
+                        if r.class().as_deref() == Some(class.as_str()) && r.switches < fewest {
+                            fewest = r.switches;
+                            start_trace = r.trace.clone();
+                        }
+                    }
+                    let min = exec::minimise_trace(&start_trace, class, &runner);
                     // confirm: replaying the minimised trace reproduces the class
                     let confirm = run_once(check, &hooks, &prep, Plan::Replay { trace: min.clone() });
                     let confirmed = confirm.class().as_deref() == Some(class.as_str());
@@ -303,6 +316,7 @@ pub fn worker_main(check: &dyn TCheck, args: &Args, w: usize, n: usize) -> ! {
                         "class": class, "sched_seed": sched_seed,
                         "original_trace_len": run.trace.len(),
                         "trace": if confirmed { min.clone() } else { run.trace.clone() },
+                        "switches_in_original": run.switches,
                         "minimised": confirmed, "detail": detail,
                         "outcome": format!("{:?}", if confirmed { &confirm.outcome } else { &run.outcome }),
                         "switches_in_minimised": confirm.switches,
